@@ -25,6 +25,7 @@ RULE = (
 ASSUMPTIONS = [
     "floats: 1e-9 relative (+1e-12 absolute) for integer / float64 inputs, 5e-6 relative for float32 inputs; integer outputs equal except where the tapped unrounded curve is within 1e-9 of a rounding tie",
     "a different lambda is tolerated only when the tapped criterion values of the two candidates agree to 1e-9 relative or are not finite (counted)",
+    "robust GCV programs: a pair is excluded when a tapped robust pass has its MAD inside kappa*eps*max|y| of the solve it came from (counted)",
     "V-curve kernels raise 'math domain error' (log 0) when interpreted on exactly reproducible data: class counted and excluded",
     "gufunc scalar arguments used as loop bounds (num_groups, window_size) are passed as Python ints to the interpreted source",
 ]
@@ -99,15 +100,53 @@ def run_interpreted(p, args, compiled_out, deep=False):
     """Returns (list of outputs, tap) for one core call of the interpreted source."""
     f = interp(p.name, deep)
     taps = ["z", "v", "robust_gcv", "gcv_temp", "fits", "pens"] if (p.name in SMOOTHERS or p.name in ("_ws2doptvp", "_ws2dwcvp")) else []
+    lines = ROBUST_LINES if p.name in ROBUST_PROGRAMS else None
     if p.kind == "gufunc":
         outs = [np.zeros(np.asarray(c).shape if np.asarray(c).ndim else 1, dtype=np.asarray(c).dtype) for c in compiled_out]
-        with shim.Tap(f, at_return=taps) as tap:
+        try:
+            tap = shim.Tap(f, at_return=taps, lines=lines)
+        except ValueError:  # the source no longer offers the tapped fragment
+            tap = shim.Tap(f, at_return=taps)
+        with tap:
             f(*args, *outs)
         res = [o if np.asarray(c).ndim else o[0] for o, c in zip(outs, compiled_out)]
         return [np.asarray(r) for r in res], tap
-    with shim.Tap(f, at_return=taps) as tap:
+    try:
+        tap = shim.Tap(f, at_return=taps, lines=lines)
+    except ValueError:
+        tap = shim.Tap(f, at_return=taps)
+    with tap:
         r = f(*args)
     return flatten(r), tap
+
+
+ROBUST_PROGRAMS = {"ws2dwcv", "ws2dwcvp", "_ws2dwcvp"}
+ROBUST_LINES = {("mad = np.median(np.abs(r_arr[", "u_arr = r_arr /"): ["mad", "w_temp", "s"]}
+
+
+def robust_scale_in_solver_noise(R, tap, y):
+    """A robust pass whose residual scale (MAD) lies inside the forward-error bound kappa*eps*max|y| of the solve it was
+    taken from (typically: only two cells still carry weight, so the fit is exact and every residual is rounding noise):
+    the bisquare weights derived from it are not determined to 1e-9 by float64 semantics in either world (same class as
+    the path-conditioning exclusion of C05)."""
+    from ..oracles import whittaker as W
+
+    if tap is None:
+        return False
+    y = np.asarray(y, dtype=float)
+    for _, loc in tap.events:
+        mad, wt, s_ = loc.get("mad"), loc.get("w_temp"), loc.get("s")
+        if mad is None or wt is None or s_ is None:
+            continue
+        wt = np.asarray(wt, dtype=float)
+        if (wt > 0).sum() < 2 or not np.isfinite(float(mad)):
+            continue
+        sel = (wt > 0) & np.isfinite(y)
+        keps = W.cond2(y.size, wt, float(s_)) * 2.0 ** -53
+        if float(mad) > 0 and float(mad) <= keps * max(1.0, float(np.max(np.abs(y[sel])))):
+            R.count("robust_scale_in_solver_noise_excluded")
+            return True
+    return False
 
 
 def compare_case(R, p, dtype, cls, args, deep=False):
@@ -199,6 +238,8 @@ def compare_case(R, p, dtype, cls, args, deep=False):
                 if name in SELECTORS and c.size == max(1, c.size) and k >= 1:
                     lam_differs = True
                     continue
+                if name in ROBUST_PROGRAMS and robust_scale_in_solver_noise(R, tap, args[0]):
+                    return
                 key = f"C13:int-width:{name}" if overflow else f"C13:value:{name}"
                 j = int(np.argmax(~np.isclose(np.asarray(c, dtype=float), np.asarray(i, dtype=float), rtol=rtol, atol=1e-12, equal_nan=True))) if c.size > 1 else 0
                 R.violation(key, f"{name}({dtype}, {cls}): output {k} differs: compiled {np.asarray(c).ravel()[j]!r} vs interpreted {np.asarray(i).ravel()[j]!r}" + (f" (NumPy integer overflow in the interpreted run: {overflow[0][:60]})" if overflow else ""), case)
@@ -261,6 +302,8 @@ def compare_case(R, p, dtype, cls, args, deep=False):
             if tie_ok:
                 R.count("integer_rounding_ties")
                 continue
+            if name in ROBUST_PROGRAMS and robust_scale_in_solver_noise(R, tap, args[0]):
+                return
             key = f"C13:int-width:{name}" if overflow else f"C13:value:{name}"
             j = int(np.argmax(d.ravel()))
             R.violation(key, f"{name}({dtype}, {cls}): integer output {k} differs at {j}: compiled {c.ravel()[j]} vs interpreted {i.ravel()[j]}" + (f" (NumPy integer overflow in the interpreted run)" if overflow else ""), case)
